@@ -120,9 +120,9 @@ def run_proxy_part(chk, args):
             if c["cls"] != "in_wss":
                 chk.cov["distinct_nontrivial"] += 1
             contacted = sorted(set(c["tcp"]) | set(c["dial"]))
-            allowed = {exp["target"]} if exp["accepted"] else set()
+            allowed = {exp["target"]} if exp["may_dial"] else set()
             bad = [w for w in contacted if w not in allowed]
-            if (not exp["accepted"]) and c["dh_dial"]:
+            if (not exp["may_dial"]) and c["dh_dial"]:
                 bad.append("dial-attempt")
             if bad:
                 chk.violation("C06/proxy-dial/%s/pattern=%s/allow=%s/at=%s" % (c["cls"], pat, str(allow).lower(), "+".join(sorted(set(bad)))),
